@@ -45,39 +45,31 @@ Theorem c11_wg_accounting : forall cs,
 Proof. exact wg_accounting. Qed.
 Print Assumptions c11_wg_accounting.
 
-(* "the supplied wait group drains with every internal goroutine finished" - as stated this is
-   FALSE of the faithful model, because wg.Add(1) is executed INSIDE the writer goroutine
-   (connecttopanel.go:137): there is a schedule in which the call has returned, the counter is
-   0, and the writer goroutine of a lost connection has not yet run (and will then Add(1) on
-   the drained group).  Witness: wg_gap_schedule (vm_compute). *)
-Theorem c11_wg_drains_refuted :
-  exists cs, let s := fst (run init cs) in
-    s_m s = MReturned /\ s_wg s = 0 /\ exists c, In c (s_cs s) /\ c_w c = WNotStarted.
-Proof. exact wg_drains_refuted. Qed.
-Print Assumptions c11_wg_drains_refuted.
-
-Theorem c11_wg_gap_then_add : s_wg (fst (run init (wg_gap_schedule ++ [CWriter 0 WNone]))) = 1.
-Proof. exact wg_gap_then_add. Qed.
-Print Assumptions c11_wg_gap_then_add.
-
-(* ... what does hold: every such run contains the uninterruptible reconnection sleep
-   (time.Sleep of >= 1 s, connecttopanel.go:238) between the creation of that goroutine and the
-   return - it needs a goroutine to stay unscheduled for over a second, which is why the tie
-   never observes it; and in every run WITHOUT that sleep all writer goroutines have started
-   when the call returns, so that a drained wait group means all of them are finished. *)
-Theorem c11_wg_gap_needs_retry_sleep : forall cs,
+(* "After cancellation ... every internal goroutine finished (the supplied wait group drains)":
+   for ALL schedules, whenever the counter is 0 after the call has been entered - so that a
+   Wait() of the caller returns - the call has returned and every writer goroutine it ever
+   created has run to its end.  Holds for the code as repaired by /repo c935b5d (wg.Add(1) for
+   the writer goroutine is executed by the main goroutine before the `go` statement). *)
+Theorem c11_wg_drains : forall cs,
   let s := fst (run init cs) in
-  s_m s = MReturned -> (exists c, In c (s_cs s) /\ c_w c = WNotStarted) -> has_retry (snd (run init cs)) = true.
-Proof. exact wg_gap_needs_retry_sleep. Qed.
-Print Assumptions c11_wg_gap_needs_retry_sleep.
+  s_wg s = 0 -> s_m s <> MStart ->
+  s_m s = MReturned /\ Forall (fun c => c_w c = WDone) (s_cs s).
+Proof. exact wg_drains. Qed.
+Print Assumptions c11_wg_drains.
 
-Theorem c11_wg_drains_partial : forall cs,
-  let s := fst (run init cs) in
-  s_m s = MReturned -> has_retry (snd (run init cs)) = false ->
-  Forall (fun c => c_w c <> WNotStarted) (s_cs s) /\
-  (s_wg s = 0 -> Forall (fun c => started c = 0) (s_cs s)).
-Proof. exact wg_drains_partial. Qed.
-Print Assumptions c11_wg_drains_partial.
+(* The defect found in the code before that commit (wg.Add(1) executed INSIDE the writer
+   goroutine, a documented sync.WaitGroup misuse), kept as an example about the legacy step
+   relation: a schedule in which the call has returned, the counter is 0 and the writer goroutine
+   of a lost connection has not yet run - it then Adds on the drained group.  Confirmed on the
+   real code through the verif hook (/repo fd89801, scenario wg-writer-held: wg.Wait() returned
+   at 1062 ms, the goroutine finished at 1602 ms).  In the repaired system the same schedule
+   leaves the counter at 1. *)
+Example c11_legacy_wg_gap :
+  let s := fst (run_legacy init wg_gap_schedule) in
+  s_m s = MReturned /\ s_wg s = 0 /\ (exists c, In c (s_cs s) /\ c_w c = WNotStarted) /\
+  s_wg (fst (run_legacy init (wg_gap_schedule ++ [CWriter 0 WNone]))) = 1 /\
+  s_wg (fst (run init wg_gap_schedule)) = 1.
+Proof. exact legacy_wg_gap. Qed.
 
 (* the panel drops the connection at ANY instant after ANY prefix of its stream (every byte
    offset): exactly the frames completely received before the drop are delivered, each once,
